@@ -275,7 +275,9 @@ class Contract:
         res = self.result.make(f'res@{site}', ctx) if isinstance(self.result, Spec) else self.result(f'res@{site}', ctx, **env)
         if self.ensures is not None:
             for f in _as_dict(self.call(self.ensures, view, tys, raw(res))).values():
-                ctx.assume(f)
+                # a Sequent's local hypotheses are definitional reveals used by the callee's own proof: the caller
+                # only learns the (opaque) conclusion
+                ctx.assume(f.goal if isinstance(f, smt.Sequent) else f)
         if self.hints is not None:
             ctx.hint(*self.call(self.hints, view, tys, raw(res)))
         return res
